@@ -2,6 +2,7 @@ package checks
 
 import (
 	"fmt"
+	"go/constant"
 	"go/token"
 	"go/types"
 	"strings"
@@ -194,29 +195,19 @@ func checkArith(c *core.Ctx, funcs []*ssa.Function) {
 					}
 					path := accessPath(bo.Y)
 					nonZero := func(op token.Token, k int64, isFloat, edgeTrue, left bool) bool {
-						if k != 0 {
-							// x > 0 / x >= 1 forms
-							if left && ((op == token.GTR && k >= 0 && edgeTrue) || (op == token.GEQ && k >= 1 && edgeTrue) || (op == token.LSS && k <= 1 && !edgeTrue && k >= 1) || (op == token.LEQ && k >= 0 && !edgeTrue)) {
-								return !isFloat
-							}
-							return false
-						}
 						if isFloat {
 							return false
 						}
-						switch op {
-						case token.NEQ:
-							return edgeTrue
-						case token.EQL:
-							return !edgeTrue
-						case token.GTR:
-							return left && edgeTrue
-						case token.LEQ:
-							return left && !edgeTrue
+						lo, hi, excl, ok := intervalOf(op, k, edgeTrue, left)
+						if !ok {
+							return false
 						}
-						return false
+						if excl != nil {
+							return *excl == 0
+						}
+						return lo > 0 || hi < 0
 					}
-					if guardedCompare(fn, path, b, nonZero) || nonZeroByConstruction(bo.Y) {
+					if guardedCompare(fn, path, b, nonZero) || nonZeroByConstruction(bo.Y) || lenOfNonEmpty(fn, bo.Y, b) {
 						c.Discharge("sim.arith", key, in.Pos(), "divisor tested non-zero on the same access path")
 					} else {
 						c.Report("sim.arith", key, in.Pos(), fmt.Sprintf("integer %s in %s whose divisor (%s) is not dominated by a non-zero test of that same value: a zero divisor (e.g. RTIME /= 0s, INTEGER /= 0.5) panics the process", bo.Op, core.FnName(fn), describeOperand(bo.Y)))
@@ -232,20 +223,14 @@ func checkArith(c *core.Ctx, funcs []*ssa.Function) {
 					}
 					path := accessPath(bo.Y)
 					nonNeg := func(op token.Token, k int64, isFloat, edgeTrue, left bool) bool {
-						if isFloat || !left {
+						if isFloat {
 							return false
 						}
-						switch op {
-						case token.GEQ:
-							return k >= 0 && edgeTrue
-						case token.GTR:
-							return k >= -1 && edgeTrue
-						case token.LSS:
-							return k <= 0 && !edgeTrue
-						case token.LEQ:
-							return k <= -1 && !edgeTrue
+						lo, _, excl, ok := intervalOf(op, k, edgeTrue, left)
+						if !ok || excl != nil {
+							return false
 						}
-						return false
+						return lo >= 0
 					}
 					if guardedCompare(fn, path, b, nonNeg) {
 						c.Discharge("sim.arith", key, in.Pos(), "shift count tested non-negative on the same access path")
@@ -284,10 +269,136 @@ func isMasked(v ssa.Value) bool {
 	return false
 }
 
-// nonZeroByConstruction: len(x)+k with k>0, constants folded, max(…,1)
+const (
+	minInt64 = -1 << 63
+	maxInt64 = 1<<63 - 1
+)
+
+// intervalOf: the set of x for which (x op k) [or (k op x) when !left] is edgeTrue: [lo,hi], or "everything but excl".
+func intervalOf(op token.Token, k int64, edgeTrue, left bool) (lo, hi int64, excl *int64, ok bool) {
+	if !left {
+		// k op x  ==  x op' k
+		switch op {
+		case token.LSS:
+			op = token.GTR
+		case token.LEQ:
+			op = token.GEQ
+		case token.GTR:
+			op = token.LSS
+		case token.GEQ:
+			op = token.LEQ
+		}
+	}
+	if !edgeTrue {
+		switch op {
+		case token.LSS:
+			op = token.GEQ
+		case token.LEQ:
+			op = token.GTR
+		case token.GTR:
+			op = token.LEQ
+		case token.GEQ:
+			op = token.LSS
+		case token.EQL:
+			op = token.NEQ
+		case token.NEQ:
+			op = token.EQL
+		default:
+			return 0, 0, nil, false
+		}
+	}
+	switch op {
+	case token.LSS:
+		if k == minInt64 {
+			return 0, 0, nil, false
+		}
+		return minInt64, k - 1, nil, true
+	case token.LEQ:
+		return minInt64, k, nil, true
+	case token.GTR:
+		if k == maxInt64 {
+			return 0, 0, nil, false
+		}
+		return k + 1, maxInt64, nil, true
+	case token.GEQ:
+		return k, maxInt64, nil, true
+	case token.EQL:
+		return k, k, nil, true
+	case token.NEQ:
+		kk := k
+		return 0, 0, &kk, true
+	}
+	return 0, 0, nil, false
+}
+
+// lenOfNonEmpty: v is len(conv(s)) / len(s) where the string s is tested against "" on an edge dominating b.
+func lenOfNonEmpty(fn *ssa.Function, v ssa.Value, b *ssa.BasicBlock) bool {
+	if cv, ok := v.(*ssa.Convert); ok {
+		v = cv.X
+	}
+	call, ok := v.(*ssa.Call)
+	if !ok {
+		return false
+	}
+	if bi, ok := call.Common().Value.(*ssa.Builtin); !ok || bi.Name() != "len" {
+		return false
+	}
+	x := call.Common().Args[0]
+	if cv, ok := x.(*ssa.Convert); ok {
+		x = cv.X
+	}
+	path := accessPath(x)
+	for _, blk := range fn.Blocks {
+		iff, ok := blk.Instrs[len(blk.Instrs)-1].(*ssa.If)
+		if !ok {
+			continue
+		}
+		bo, ok := iff.Cond.(*ssa.BinOp)
+		if !ok || (bo.Op != token.EQL && bo.Op != token.NEQ) {
+			continue
+		}
+		k, ok := bo.Y.(*ssa.Const)
+		if !ok || k.Value == nil || k.Value.ExactString() != `""` || accessPath(bo.X) != path {
+			continue
+		}
+		edge := 1
+		if bo.Op == token.NEQ {
+			edge = 0
+		}
+		if core.EdgeDominates(blk, edge, b) {
+			return true
+		}
+	}
+	return false
+}
+
+// nonZeroByConstruction: len(x)+k with k>0, a phi of non-zero constants, an integer conversion of math.Pow(c>=1, …),
+// a product of such values with non-zero constants (overflow to exactly zero is not considered).
 func nonZeroByConstruction(v ssa.Value) bool {
 	switch t := v.(type) {
+	case *ssa.Const:
+		k, ok := core.ConstIntValue(t)
+		return ok && k != 0
+	case *ssa.Phi:
+		for _, e := range t.Edges {
+			if !nonZeroByConstruction(e) {
+				return false
+			}
+		}
+		return len(t.Edges) > 0
+	case *ssa.Call:
+		if cal := t.Common().StaticCallee(); cal != nil && cal.Pkg != nil && cal.Pkg.Pkg.Path() == "math" && cal.Name() == "Pow" {
+			if k, ok := t.Common().Args[0].(*ssa.Const); ok && k.Value != nil {
+				if f, _ := constant.Float64Val(constant.ToFloat(k.Value)); f >= 1 {
+					return true
+				}
+			}
+		}
+		return false
 	case *ssa.BinOp:
+		if t.Op == token.MUL {
+			return nonZeroByConstruction(t.X) && nonZeroByConstruction(t.Y)
+		}
 		if t.Op == token.ADD {
 			if k, ok := core.ConstIntValue(t.Y); ok && k > 0 {
 				if call, ok := t.X.(*ssa.Call); ok {
